@@ -165,8 +165,7 @@ def check(run):
     for k in (0, len(cases) // 2, len(cases) - 1):
         run.sample({"case": cases[k][:400], "impl": io[k][:400]})
     report_diffs(run, diffs, "coq/Client.v", "zvt_feig_terminal (Feig, ResetSequence)", "client")
-    if any(not v.get("no_failing_input_found") for v in run.violations):
-        run.violations = [v for v in run.violations if not v.get("no_failing_input_found")]
+    vlib.prefer_concrete(run)
     return vlib.finish(run, trusted_base=TB, assumptions=["ASCII tokens and serials", "the in-memory connector stands for TCP"])
 
 
